@@ -148,7 +148,6 @@ Definition st_enum_value   := mkSite "enumBuilder.addValue" "" XEnumValue "*ext_
 Definition st_service_opts := mkSite "conversionVisitor.visitServiceNode" "" XService "*ext_j5pb.ServiceOptions" "*descriptorpb.ServiceOptions".
 Definition st_method_http  := mkSite "conversionVisitor.visitServiceMethodNode" "" XHttp "*annotations.HttpRule" "*descriptorpb.MethodOptions".
 Definition st_method_opts  := mkSite "conversionVisitor.visitServiceMethodNode" "" XMethod "*ext_j5pb.MethodOptions" "*descriptorpb.MethodOptions".
-Definition st_method_listreq := mkSite "conversionVisitor.visitServiceMethodNode" "" XListRequest "*list_j5pb.ListRequestMessage" "*descriptorpb.MethodOptions".
 
 (* the model's call-site table, in source order (compared with SetExtGen.sites) *)
 Definition model_sites : list site :=
@@ -158,7 +157,7 @@ Definition model_sites : list site :=
     st_bool_rules; st_bool_list; st_bytes_rules; st_date_rules; st_date_list; st_dec_rules; st_dec_list;
     st_float_list; st_float_list; st_int_rules; st_int_list; st_int_list; st_int_list; st_int_list;
     st_key_entity; st_key_list; st_key_val; st_string_rules; st_string_list; st_ts_rules; st_ts_list; st_any; st_any_list;
-    st_setj5ext; st_service_opts; st_method_http; st_method_opts; st_method_listreq ].
+    st_setj5ext; st_service_opts; st_method_http; st_method_opts ].
 
 (* proto.SetExtension(dest, xt, v): xt.ValueOf(v) panics on a value of another Go type,
    and Message.Set panics when xt does not extend dest's message *)
@@ -405,8 +404,8 @@ Definition build_field (t : fty) : M (ptype * tname) :=
       set_j5ext "key" [] ;;;
       (if lrules
        then match f with
-            | KNilType | KInformal => fail "unknown key format"
-            | _ => ensure IJ5List ;;; setext st_key_list
+            | KNilType => fail "unknown key format"
+            | _ => ensure IJ5List ;;; setext st_key_list      (* informal: unique_string, since fix dc2b724 *)
             end
        else ret tt) ;;;
       match f with
@@ -476,7 +475,9 @@ Definition build_property (p : prop) : M fdesc :=
     let required := p_required p || primary_key_shape (p_shape p) in
     when required (ensure IBufValidate ;;; setext st_required ;;; ensure IJ5Ext) ;;;
     if p_optional p && required then fail "cannot be both required and optional"
-    else ret (mkDesc pt tn rep (p_optional p)).
+    (* proto3_optional only on a singular field (fix d536c9b): a repeated field (array, map) cannot be the
+       member of the synthetic oneof *)
+    else ret (mkDesc pt tn rep (p_optional p && negb rep)).
 
 (* ------------------------------------------------------------------ one-property file *)
 (* visitObjectNode for `object Foo { field f ... }` in a file with nothing else, then the
@@ -565,11 +566,5 @@ Definition in_language (p : prop) : bool :=
 Definition uses_float_rules (p : prop) : bool :=
   match p_shape p with
   | Plain (TFloat _ true _) | Array (Some (TFloat _ true _)) _ _ | Map (Some (TFloat _ true _)) _ => true
-  | _ => false
-  end.
-(* key list rules with the informal format: "unknown key format" *)
-Definition uses_informal_key_listrules (p : prop) : bool :=
-  match p_shape p with
-  | Plain (TKey _ _ KInformal true) | Array (Some (TKey _ _ KInformal true)) _ _ | Map (Some (TKey _ _ KInformal true)) _ => true
   | _ => false
   end.
